@@ -243,6 +243,14 @@ const (
 
 var c20Payload = []byte("C20-PAYLOAD written by the operation under test\n")
 
+// Names chosen by the harness (not by the grammar) for files written below a hostile directory or link
+// name. They carry the shard number so that an absolute escape to "/" – the one place all shard
+// processes share – is attributed to the shard that caused it.
+var (
+	c20ThruName = "c20thru.s" + os.Getenv("VERIF_SHARD")
+	c20InName   = "c20in.s" + os.Getenv("VERIF_SHARD")
+)
+
 func c20NewH(ctx context.Context, scratch string, g *c20Guard) (*c20H, error) {
 	h := &c20H{ctx: ctx, g: g, scratch: scratch}
 	h.reg = &c20Reg{blobs: map[string][]byte{}, mt: mediatype.OCI1Manifest}
@@ -506,9 +514,9 @@ func (h *c20H) execExtract(c c20Case, in string, res *c20Result) {
 	case "reg":
 		ents = []c20TarEnt{{Name: in, Type: tar.TypeReg, Body: c20Payload}}
 	case "dir":
-		ents = []c20TarEnt{{Name: in, Type: tar.TypeDir}, {Name: in + "/c20in", Type: tar.TypeReg, Body: c20Payload}}
+		ents = []c20TarEnt{{Name: in, Type: tar.TypeDir}, {Name: in + "/" + c20InName, Type: tar.TypeReg, Body: c20Payload}}
 	case "sym-thru": // link with hostile target, then a file below the link name
-		ents = []c20TarEnt{{Name: ln, Type: tar.TypeSymlink, Link: in}, {Name: ln + "/c20thru", Type: tar.TypeReg, Body: c20Payload}}
+		ents = []c20TarEnt{{Name: ln, Type: tar.TypeSymlink, Link: in}, {Name: ln + "/" + c20ThruName, Type: tar.TypeReg, Body: c20Payload}}
 	case "sym-over": // link with hostile target, then a file AT the link name (written through the link)
 		ents = []c20TarEnt{{Name: ln, Type: tar.TypeSymlink, Link: in}, {Name: ln, Type: tar.TypeReg, Body: c20Payload}}
 	case "hard-over":
@@ -579,6 +587,30 @@ func (h *c20H) execImport(c c20Case, in string, res *c20Result) {
 		blobs = []c20TarEnt{manE, confE, {Name: in, Type: tar.TypeReg, Body: h.impLayer}}
 	case "sym-name": // hostile link name pointing at a real blob
 		pre = []c20TarEnt{{Name: in, Type: tar.TypeSymlink, Link: layerE.Name}}
+	case "docker-names": // docker save format: manifest.json names config and layer files by hostile names
+		mj, err := json.Marshal([]map[string]any{{"Config": in, "RepoTags": []string{"c20:latest"}, "Layers": []string{in + "/layer.tar"}}})
+		if err != nil {
+			res.skipped = "manifest.json not encodable"
+			return
+		}
+		tb, err := c20Tar([]c20TarEnt{
+			{Name: "manifest.json", Type: tar.TypeReg, Body: mj},
+			{Name: in, Type: tar.TypeReg, Body: h.impConf},
+			{Name: in + "/layer.tar", Type: tar.TypeReg, Body: h.artBlob},
+		})
+		if err != nil {
+			res.skipped = "tar cannot carry this name: " + err.Error()
+			return
+		}
+		rc := h.newRC()
+		res.err = rc.ImageImport(h.ctx, r, bytes.NewReader(tb))
+		if res.err == nil {
+			if _, err := rc.ManifestHead(h.ctx, r); err == nil {
+				res.note = "layer-present"
+			}
+		}
+		_ = rc.Close(h.ctx, r)
+		return
 	case "index-digest": // index.json names the manifest by a hostile digest
 		d := tagged
 		d.Digest = digest.Digest(in)
